@@ -253,3 +253,34 @@ class Coverage:
     def as_dict(self):
         return {'evaluations': self.evaluations, 'distinct_nontrivial': len(self.nontrivial), 'rule': self.rule,
                 'samples': self.samples, 'distribution': dict(sorted(self.hist.items()))}
+
+
+class ReplayCtx:
+    """what a plugin's run() needs when it is re-run from a replay (no model driver: only the oracle on the real code)"""
+    def __init__(self, prop, seed=0, tier='quick'):
+        self.prop, self.tier, self.seed = prop, tier, seed
+        self.rng = Rng(seed, prop)
+        self.driver_ok = False
+        self.broken = False
+        self.deadline = None
+
+    def scale(self, quick, thorough):
+        return thorough if self.tier == 'thorough' else quick
+
+    def driver(self, lines):
+        return []
+
+
+def rerun_for_signature(plugin, failure, seeds=(0, 1)):
+    """Fallback of a replay: re-runs the plugin's own oracle on the current tree and says whether a failure with the recorded signature
+    occurs again (1) or not (0)."""
+    import json as _json
+    sig = failure.get('sig')
+    for sd in seeds:
+        res = plugin.run(ReplayCtx(plugin.ID, sd))
+        hit = [f for f in res.get('failures', []) if f.get('sig') == sig]
+        if hit:
+            print('the oracle reports the recorded signature again: %s' % _json.dumps({k: hit[0].get(k) for k in ('sig', 'input', 'observed', 'expected')}, default=str)[:900])
+            return 1
+    print('the oracle does not report signature %s on the current tree' % _json.dumps(sig))
+    return 0
